@@ -18,6 +18,6 @@ theorem inv (multi : Bool) : Overbook.OBInv (world multi) {} [] := by
     rcases hp with rfl | rfl <;> simp [Pool.fresh] at hc
 
 theorem runs (multi : Bool) (arrivals : List (List Nat)) : ∃ out, Overbook.loop (world multi) {} [] arrivals = .ok out :=
-  Overbook.run_never_raises arrivals _ _ _ (inv multi)
+  let ⟨w', st', res', h, _⟩ := Overbook.run_never_raises arrivals _ _ _ (inv multi); ⟨(w', st', res'), h⟩
 
 end Eudoxia.OverbookExample
